@@ -389,3 +389,62 @@ func MainEnum[C any](t *testing.T, p Prop[C], enumerate func(emit func(c C) bool
 		t.Logf("enumerated %d cases, exhausted=%v", col.st.Evaluations, exhausted)
 	}
 }
+
+// ---------------------------------------------------------------- native fuzzing
+
+// Fuzz registers the property as a Go native fuzz target: the fuzzer's bytes
+// become rapid's random stream (rapid.MakeFuzz), so coverage guidance mutates
+// the generated case; the oracle is the same Run. Each worker process writes
+// its own statistics file (VERIF_STATS + "." + pid) and the failing case goes
+// to VERIF_FAILFILE, exactly as in the rapid-driven mode.
+func Fuzz[C any](f *testing.F, p Prop[C]) {
+	col := newCollector(p.ID, p.Name, p.Rule)
+	if col.statsOut != "" {
+		col.statsOut = fmt.Sprintf("%s.%d", col.statsOut, os.Getpid())
+	}
+	failFile := os.Getenv("VERIF_FAILFILE")
+	// rapid consumes 8 bytes per drawn value, a case needs hundreds of draws: seed the corpus
+	// with buffers of a few KiB from a fixed PRNG (structured variety: random, low-entropy,
+	// all-ones) so that the generator runs to completion from the first exec on
+	x := uint64(0x9e3779b97f4a7c15)
+	for i := 0; i < 12; i++ {
+		buf := make([]byte, 2048<<uint(i%3))
+		for j := range buf {
+			x ^= x << 13
+			x ^= x >> 7
+			x ^= x << 17
+			switch i % 4 {
+			case 0, 1:
+				buf[j] = byte(x)
+			case 2:
+				buf[j] = byte(x) & 0x07
+			default:
+				if j%8 == 0 {
+					buf[j] = byte(x)
+				}
+			}
+		}
+		f.Add(buf)
+	}
+	n := 0
+	f.Fuzz(rapid.MakeFuzz(func(rt *rapid.T) {
+		c := p.Gen(rt)
+		raw, jerr := json.Marshal(c)
+		if jerr != nil {
+			rt.Fatalf("harness: case not serialisable: %v", jerr)
+		}
+		out, err := safeRun(p, c)
+		col.record(raw, out)
+		n++
+		if n%1000 == 0 {
+			col.flush()
+		}
+		if err != nil {
+			col.st.Failed = true
+			col.st.FailMsg = err.Error()
+			col.flush()
+			writeFail(failFile, raw, err.Error())
+			rt.Fatalf("property %s/%s violated: %s\ncase: %s", p.ID, p.Name, trunc(err.Error(), 4000), trunc(string(raw), 1500))
+		}
+	}))
+}
